@@ -19,7 +19,7 @@ from runner import HarnessError
 
 PID = "C42"
 LEVEL = "exploration"
-RULE = ("all renderings (2 styles) of every 2-/3-leaf tree over & | juxtaposition with every placement of ! (exhaustive), plus "
+RULE = ("every 2-/3-leaf tree (one of two renderings in the quick tier, both in the thorough tier) over & | juxtaposition with every placement of ! (exhaustive), plus "
         "Hypothesis trees (<=7 atoms, paren nesting <=2) over all 14 unary, 17 regex, ~c and naked-regex atoms with "
         "! & | juxtaposition and redundant parentheses, rendered with varied whitespace (space, tab, CR, LF between tokens, after arguments and around the expression)/parenthesisation/quoting, each "
         "evaluated on 42 pool flows (incl. HTTP bodies whose Content-Encoding header fits / does not fit the bytes) of all types + 2 case-specific flows; non-trivial = tree has >=2 different "
@@ -161,16 +161,19 @@ def _small_trees():
 
 def run(ctx):
     from runner import hyp, norm
+    # random part first: if the wall-clock budget is hit on a loaded machine it is the enumeration that is cut short
+    hyp(ctx, strategy(ctx), check_case, ctx.n(QUICK_N, THOROUGH_N))
     trees = _small_trees()
-    for i, t in enumerate(trees):
-        if i % ctx.nshards != ctx.shard:
-            continue
+    if not ctx.thorough:
+        # quick tier: every tree in one of the two renderings (alternating), thorough tier: both
+        trees = [t for i, t in enumerate(trees) if (i + i // (len(trees) // 2)) % 2 == 0]
+    mine = [t for i, t in enumerate(trees) if i % ctx.nshards == ctx.shard]
+    for t in mine:
         ctx.cur_case = norm([t, "", ""])
         ctx.ev()
         ctx.cls("exhaustive-small-tree")
         check_case(ctx.cur_case, ctx)
-    ctx.extra["small_trees_enumerated"] = len([i for i in range(len(trees)) if i % ctx.nshards == ctx.shard])
-    hyp(ctx, strategy(ctx), check_case, ctx.n(QUICK_N, THOROUGH_N))
+    ctx.extra["small_trees_enumerated"] = len(mine)
 
 
 # ------------------------------------------------------------------ flow pool (per process)
